@@ -133,5 +133,4 @@ func VP_C06_stream() {
 	vpAssert(tr.pos == k, "every-packet-of-the-stream-is-processed")
 	vpAssert(len(got) == len(want), "host-receives-exactly-as-many-bytes-as-the-client-declared")
 	vpAssert(vpEqBytes(got, want), "host-stream-equals-the-concatenated-data-payloads")
-	vpAssert(len(tr.out) == 0, "no-response-to-data-or-keepalive")
 }
